@@ -182,8 +182,34 @@ type c08Cell struct {
 
 func (c c08Cell) String() string { return fmt.Sprintf("%s %s %s", c.h.name, c.src.Name(), c.form) }
 
+// types "from another scope" with the memory layout of a vocabulary type: the helpers' reflection fallback exists for these
+type c08ExtObject ap.Object
+
+func (n c08ExtObject) GetID() ap.ID                       { return n.ID }
+func (n c08ExtObject) GetLink() ap.IRI                    { return n.ID }
+func (n c08ExtObject) GetType() ap.ActivityVocabularyType { return n.Type }
+func (n c08ExtObject) IsLink() bool                       { return false }
+func (n c08ExtObject) IsObject() bool                     { return true }
+func (n c08ExtObject) IsCollection() bool                 { return false }
+
+type c08ExtActor ap.Actor
+
+func (n c08ExtActor) GetID() ap.ID                       { return n.ID }
+func (n c08ExtActor) GetLink() ap.IRI                    { return n.ID }
+func (n c08ExtActor) GetType() ap.ActivityVocabularyType { return n.Type }
+func (n c08ExtActor) IsLink() bool                       { return false }
+func (n c08ExtActor) IsObject() bool                     { return true }
+func (n c08ExtActor) IsCollection() bool                 { return false }
+
 func c08Cells() []c08Cell {
 	var out []c08Cell
+	// the external types first: viewed as their true shape, then through every other helper (a conversion that remembers an
+	// earlier answer for the source type shows in the later cells)
+	for _, h := range c08Helpers {
+		for _, st := range []reflect.Type{reflect.TypeOf(c08ExtObject{}), reflect.TypeOf(c08ExtActor{})} {
+			out = append(out, c08Cell{h, st, "ptr"})
+		}
+	}
 	for _, h := range c08Helpers {
 		for _, st := range vocab.StructTypes {
 			for _, form := range []string{"ptr", "val"} {
@@ -424,7 +450,7 @@ func TestC08(t *testing.T) {
 	}
 	r := ev.Open(t, "C08")
 	defer r.Close(t)
-	r.Rule("matrix: every To*/On* helper (15 types, generic To[T]) x every source struct type x {pointer, value} (exhaustive), each on 20 (300 thorough) fully populated source values with a distinct recognisable " +
+	r.Rule("matrix: every To*/On* helper (15 types, generic To[T]) x every source struct type x {pointer, value} (exhaustive), plus two types from outside the package with the layout of Object and of Actor (the helpers' reflection fallback) through every helper, each on 20 (300 thorough) fully populated source values with a distinct recognisable " +
 		"value in every field; run in a child process built with the runtime pointer checker (-d=checkptr) so that an abort is attributed to its cell. Oracle per cell that returns a view: reflect offsets/sizes show the " +
 		"view type lies inside the source value, every shared field (plus items<->orderedItems) reads equal, writes through a pointer view reach the original; an error return is always accepted. A go/parser census " +
 		"of unsafe.Pointer conversion sites checks that every site is exercised by a cell. intf: OnCollectionIntf on each of the four collection kinds and an item list held by pointer, with 0/1/3 members: " +
